@@ -92,7 +92,7 @@ Proof.
     unfold pmac. destruct (ver_lt (maxVersion c) (3, 3)); [|reflexivity].
     unfold sub_tab. apply forallb_filter_imp. exact keep_old_in_tab.
   - (* versions *)
-    destruct (ver_lt (maxVersion c) (3, 4)); [|reflexivity]. eapply filter_lt34_all. exact Hy.
+    eapply filter_range_all. exact Hy.
   - (* keyShares *)
     match goal with H : negb (isnil (filter (fun x => negb (in_tab x (t_all_dh T)) && _) x19)) = false |- _ =>
       apply keyshares_known in H; exact H end.
